@@ -14,6 +14,7 @@ import ast
 
 from ..astutil import resolve_class, dotted, src, walk_local, local_assignments, calls, terminal
 from ..dispatch import dispatcher, operand_slots, dead_arms
+from ..inline import bind_args
 from ..report import AnalysisError
 from .common import problem_model
 
@@ -44,6 +45,104 @@ def _continue_facts(body, tr):
         if kind in ("continue", "return"):
             res = set(f) if res is None else set(res) & set(f)
     return set(res) if res is not None else set()
+
+
+def _worklist_loop(fn_node):
+    """(loop, worklist name, node name) of `while W: node = W.pop() ...`."""
+    for n in ast.walk(fn_node):
+        if isinstance(n, ast.While) and isinstance(n.test, ast.Name):
+            for st in n.body:
+                if isinstance(st, ast.Assign) and isinstance(st.targets[0], ast.Name) and isinstance(st.value, ast.Call) and isinstance(st.value.func, ast.Attribute) and st.value.func.attr == "pop" and src(st.value.func.value) == n.test.id:
+                    return n, n.test.id, st.targets[0].id
+    return None, None, None
+
+
+def _walker_by_scenario(prog, rep, walker):
+    """R16.2: what the iterative variable walker does with a node of every expression kind, decided by walking the
+    loop body with `node is a K`: a Variable is added to the result; a kind with operand slots is either delegated to
+    its own get_variables (R16.1) or has ALL its children pushed on the work list; any other kind is delegated.  Names
+    of the work list / result set, merged isinstance arms (local tuples of kinds), append vs extend are free."""
+    from ..scenario import Explorer, TooManyPaths
+
+    loop, W, subj = _worklist_loop(walker.node)
+    if loop is None:
+        raise AnalysisError(f"{walker.name}: work-list loop `while W: node = W.pop()` not found")
+    aliases = prog.func_aliases(walker)
+    assigns = local_assignments(walker.node)
+
+    def kinds_of(node):
+        if isinstance(node, ast.Tuple):
+            out = []
+            for e in node.elts:
+                out.extend(kinds_of(e))
+            return out
+        if isinstance(node, ast.Name) and node.id in assigns and len(assigns[node.id]) == 1 and isinstance(assigns[node.id][0], ast.Tuple):
+            return kinds_of(assigns[node.id][0])
+        return [resolve_class(node, aliases) or src(node)]
+
+    body = [st for st in loop.body if not (isinstance(st, ast.Assign) and isinstance(st.targets[0], ast.Name) and st.targets[0].id == subj)]
+    kinds = prog.expression_kinds()
+    handled_any = set()
+    for k in kinds:
+        slots = operand_slots(prog, k)
+
+        def atom_truth(t, state, k=k):
+            if isinstance(t, ast.Call) and dotted(t.func) == "isinstance" and len(t.args) == 2 and src(t.args[0]) == subj:
+                ks = kinds_of(t.args[1])
+                hit = any(k2 in prog.classes and prog.is_subclass(k, k2) for k2 in ks)
+                if hit:
+                    state["arm"] = True
+                return hit
+            if isinstance(t, ast.Compare) and len(t.ops) == 1 and isinstance(t.ops[0], (ast.In, ast.NotIn)):
+                return isinstance(t.ops[0], ast.NotIn)        # first visit of this node
+            return None
+
+        def on_stmt(st, state):
+            for c in ast.walk(st):
+                if not (isinstance(c, ast.Call) and isinstance(c.func, ast.Attribute)):
+                    continue
+                recv = src(c.func.value)
+                if c.func.attr in ("append", "extend") and recv == W and c.args:
+                    items = c.args[0].elts if isinstance(c.args[0], (ast.Tuple, ast.List)) else [c.args[0]]
+                    for it in items:
+                        for sl in slots:
+                            if src(it).startswith(f"{subj}.{sl}"):
+                                state["pushed"].add(sl)
+                elif c.func.attr == "add" and c.args and src(c.args[0]) == subj:
+                    state["added"] = True
+                elif c.func.attr == "get_variables" and recv == subj:
+                    state["delegated"] = True
+
+        try:
+            paths = Explorer(atom_truth, on_stmt).explore(body, {"pushed": set(), "added": False, "delegated": False, "arm": False})
+        except TooManyPaths:
+            rep.undecided(f"{walker.name}[{k}]: too many paths")
+            continue
+        why, ok = None, True
+        for st_, term in paths:
+            if term == "raise":
+                continue
+            if k == "Variable":
+                if not st_["added"]:
+                    ok, why = False, "Variable nodes are not added to the result"
+            elif st_["delegated"]:
+                continue
+            elif not slots:
+                continue
+            elif st_["pushed"] != set(slots):
+                if st_["arm"]:
+                    ok, why = False, f"pushes only {sorted(st_['pushed'])} of the children {sorted(slots)}: variables under the other child are dropped"
+                else:
+                    ok, why = False, "unknown kinds are skipped: their variables are dropped"
+        if any(st_["arm"] for st_, _t in paths):
+            handled_any.add(k)
+        good = {"Variable": "adds the variable"}.get(k) or ("leaf without variables" if not slots else "delegates to the kind's own get_variables (R16.1) or pushes all children")
+        rep.ob("R16.2", f"{walker.name}[{k}]", ok, good if ok else why, loc=walker.loc, detail="arm" if k in handled_any else "default-delegates", trivial=not slots and k != "Variable")
+    rep.saw("walker kinds handled by an explicit arm", sorted(handled_any))
+    try:
+        return dispatcher(prog, walker)
+    except AnalysisError:
+        return None
 
 
 def _shortcut_by_scenario(prog, rep, sc, ds):
@@ -242,7 +341,23 @@ def check(prog, rep):
             used = ("self", slot) in text_attrs
             rep.ob("R16.1", f"{k}.get_variables", used, f"covers operand slot .{slot}" if used else f"does not look at operand slot .{slot}: variables occurring only there are missing from the problem", loc=gv.loc, detail=f"slot:{slot}")
             if used and "VectorVariable" in holders and "VectorExpression" in holders:
-                both = any(isinstance(n, ast.Call) and dotted(n.func) == "isinstance" and src(n.args[0]) == f"self.{slot}" for n in walk_local(gv.node)) and any(isinstance(n, ast.Call) and isinstance(n.func, ast.Attribute) and n.func.attr == "get_variables" and src(n.func.value) == f"self.{slot}" for n in walk_local(gv.node))
+                def both_kinds(fn_node, what, module, depth=0):
+                    """`what` is tested with isinstance and also asked for get_variables() -- here, or in a module
+                    helper it is handed to."""
+                    direct = any(isinstance(n, ast.Call) and dotted(n.func) == "isinstance" and src(n.args[0]) == what for n in walk_local(fn_node)) and any(isinstance(n, ast.Call) and isinstance(n.func, ast.Attribute) and n.func.attr == "get_variables" and src(n.func.value) == what for n in walk_local(fn_node))
+                    if direct or depth >= 2:
+                        return direct
+                    for c in walk_local(fn_node):
+                        if isinstance(c, ast.Call) and isinstance(c.func, ast.Name):
+                            h = prog.functions.get(f"{module.name}:{c.func.id}")
+                            if h is None:
+                                continue
+                            for prm, arg in bind_args(h.node, c).items():
+                                if src(arg) == what and both_kinds(h.node, prm, h.module, depth + 1):
+                                    return True
+                    return False
+
+                both = both_kinds(gv.node, f"self.{slot}", gv.module)
                 rep.ob("R16.1", f"{k}.get_variables", both, f".{slot}: variable containers and expression vectors are both handled" if both else f".{slot} may hold a VectorVariable or a VectorExpression but only one of the two is handled", loc=gv.loc, detail=f"slot:{slot}:both-kinds")
     for c in ("VectorExpression", "MatrixExpression"):
         gv = prog.cls(c).methods.get("get_variables")
@@ -251,28 +366,7 @@ def check(prog, rep):
 
     # ------------------------------------------------------------------ R16.2
     walker = prog.func("optyx.core.expressions:_get_variables_iterative")
-    d = dispatcher(prog, walker)
-    for a in d.arms:
-        for k in a.kinds:
-            slots = operand_slots(prog, k) if k in prog.classes else {}
-            body_src = src(a.body)
-            if k == "Variable":
-                ok = ".add(" in body_src
-                why = "adds the variable" if ok else "Variable nodes are not added to the result"
-            elif not slots:
-                ok = True
-                why = "leaf without variables"
-            elif f"{d.subject}.get_variables()" in body_src:
-                ok = True
-                why = "delegates to the kind's own get_variables (R16.1)"
-            else:
-                pushed = _must_pushed(a.body, d.subject, slots)
-                ok = pushed == set(slots)
-                why = f"pushes all children {sorted(pushed)}" if ok else f"pushes only {sorted(pushed)} of the children {sorted(slots)}: variables under the other child are dropped"
-            rep.ob("R16.2", f"{walker.name}[{k}]", ok, why, loc=f"{walker.module.rel}:{a.lineno}", detail="arm")
-    dsrc = src(d.default)
-    deleg = f"{d.subject}.get_variables()" in dsrc
-    rep.ob("R16.2", f"{walker.name}[default]", deleg, "unknown kinds are delegated to their get_variables (conservative default)" if deleg else "unknown kinds are skipped: their variables are dropped", loc=walker.loc, detail="default-delegates")
+    d = _walker_by_scenario(prog, rep, walker)
     swallowed = []
     for n in walk_local(walker.node):
         if isinstance(n, ast.ExceptHandler) and all(isinstance(s, (ast.Pass, ast.Continue)) or (isinstance(s, ast.Expr) and isinstance(s.value, ast.Constant)) for s in n.body):
@@ -319,8 +413,21 @@ def check(prog, rep):
             rep.ob("R16.3", "Problem.variables", False, f"the shortcut is taken without checking that every constraint depends on the same vector: the check ranges over `{it}`, not over all constraints", loc=f"{f.module.rel}:{region.lineno}", detail="all-constraints-agree")
         else:
             holders = {src(lp)} | {nm for nm, vals in local_assignments(f.node).items() if any(v is lp for v in vals)}
-            cmps = [x for x in ast.walk(region) if isinstance(x, ast.Compare) and len(x.ops) == 1 and ({src(x.left), src(x.comparators[0])} & holders) and not ({src(x.left), src(x.comparators[0])} & {"None"})]
-            if not cmps:
+            def base(e):
+                while isinstance(e, ast.Attribute):
+                    e = e.value
+                return src(e)
+
+            # comparisons of the constraint's source (or of an attribute of it, e.g. `.name`) with something else
+            cmps = [x for x in ast.walk(region) if isinstance(x, ast.Compare) and len(x.ops) == 1 and ({base(x.left), base(x.comparators[0])} & holders) and not ({src(x.left), src(x.comparators[0])} & {"None"})]
+            by_attr = [x for x in cmps if isinstance(x.left, ast.Attribute) and base(x.left) in holders or isinstance(x.comparators[0], ast.Attribute) and base(x.comparators[0]) in holders]
+            if by_attr:
+                rep.ob("R16.3", "Problem.variables", False, f"the constraint's source is matched with the objective's by `{src(by_attr[0])[:60]}`, not by identity: two different vectors (e.g. views x[0:4] and x[::-1], which share a name) count as the same source and the shortcut returns only one of them", loc=f"{f.module.rel}:{by_attr[0].lineno}", detail="all-constraints-agree")
+                cmps = []
+                region = None
+            if region is None:
+                pass
+            elif not cmps:
                 rep.undecided(f"Problem.variables: no comparison of the constraint's source with the objective's source found in the loop at {f.module.rel}:{region.lineno}")
             else:
                 by_id = all(isinstance(x.ops[0], (ast.Is, ast.IsNot)) for x in cmps)
@@ -403,6 +510,8 @@ def check(prog, rep):
     covers_con = any(isinstance(n, (ast.For, ast.GeneratorExp, ast.ListComp, ast.SetComp)) and ("_constraints" in src(getattr(n, "iter", None) or n.generators[0].iter)) and "get_all_variables(" in src(n) for f in scope for n in walk_local(f.node))
     rep.pin("Problem.variables shape rules", "R16.6", "Problem.variables", covers_obj and covers_con, "the general path unions the objective and every constraint" if covers_obj and covers_con else "the general path does not union the variables of the objective and of every constraint", loc=pv.loc, detail="union")
     for fi_, d_ in ((walker, d), (sc, ds)):
+        if d_ is None:
+            continue        # dispatch not in if-chain form; the scenario walk above does not depend on arm order
         da = dead_arms(prog, d_)
         rep.ob("R16.2" if fi_ is walker else "R16.3", fi_.name, not da, "no arm is shadowed" if not da else f"arm for {da[0][0].kinds} is shadowed by the earlier arm for {da[0][1].kinds}", loc=fi_.loc, detail="order")
 
